@@ -163,4 +163,32 @@ PROPS = {
         profiles=["release", "dev"],
         profile_scale={"dev": 0.1},
     ),
+    "C15": dict(
+        rule="a case is one evaluation of a shared precompiled expression (6 expressions incl. 60-deep and 48-deep trees, "
+             "builtin and user-function calls, a deliberately slow user function) against a shared context (2 "
+             "Arc<HashMapContext>, 2 Arc<SlowContext> whose lookups spin for a PRNG-chosen time and stamp a global "
+             "sequence number) issued by one of 16-32 threads released by a barrier; expected results are computed "
+             "sequentially beforehand on freshly built trees and contexts; also clones / Display / iterators / drops of "
+             "the shared objects from several threads; the same workload scaled down runs under Miri (one schedule per "
+             "seed; UB and data races fatal) and, in the thorough tier, under ThreadSanitizer; Send + Sync of the 8 "
+             "public types is decided by rustc on /verif/sendsync; non-trivial = every evaluation; distinct = distinct "
+             "interleaving signatures (hash of the thread-id sequence of the SlowContext log per round)",
+        assumptions=COMMON + ["race detectors see only schedules that occurred (Miri: seeded; TSan/native: whatever the OS produced)",
+                              "Send/Sync itself is the compiler's verdict, reported through the same interface"],
+        profiles=[],
+    ),
+    "C16": dict(
+        rule="a case is one round trip: a string (fixed examples, character soup, token soup, mostly-well-formed programs, "
+             "random scalar values) serialized as a ron string and deserialized as a Node through ron 0.8.1 and through "
+             "serde's StrDeserializer, compared with build_operator_tree (equal trees / equal messages); or a "
+             "HashMapContext built through the API (set_value of every value type incl. nested tuples, +-0.0, "
+             "subnormals, infinities, NaN, boundary ints, awkward strings and names, expression assignments, functions, "
+             "builtin switch) serialized compactly or pretty and deserialized: variable map (floats by bit pattern), "
+             "switch and absence of functions must survive; non-trivial = every round trip the transport itself "
+             "carries faithfully; distinct = distinct strings / serialized contexts",
+        assumptions=COMMON + ["built with cargo +1.81.0 (only that registry holds ron 0.8.1)",
+                              "ron has a single NaN token: NaN payload and sign are outside what the format can carry",
+                              "a string or context ron itself cannot carry (checked with a plain String / Vec) is skipped"],
+        profiles=[],
+    ),
 }
